@@ -58,7 +58,33 @@ func (p *projSpec) extDep(i, v int) int {
 	return e.Loads
 }
 
-func extPath(i int) string  { return fmt.Sprintf("github.com/verif/ext%d", i) }
+// extTwin is the index of the project that is the next major version (v2) of project 0: the
+// same repository, the path github.com/verif/ext0@v2, versions v2.x.0, and a lib.dawn of its
+// own. A project has it if it has that many required projects.
+const extTwin = 3
+
+func extPath(i int) string {
+	if i == extTwin {
+		return "github.com/verif/ext0@v2"
+	}
+	return fmt.Sprintf("github.com/verif/ext%d", i)
+}
+
+// extVersion is version v (index) of project i.
+func extVersion(i, v int) string {
+	if i == extTwin {
+		return "v2" + strings.TrimPrefix(extVersions[v], "v1")
+	}
+	return extVersions[v]
+}
+
+// extRepoOf is the project whose repository serves project i.
+func extRepoOf(i int) int {
+	if i == extTwin {
+		return 0
+	}
+	return i
+}
 func extAlias(i int) string { return fmt.Sprintf("ext%d", i) }
 
 // extLabel is how dawn names the module lib.dawn of required project i.
@@ -125,7 +151,7 @@ func (p *projSpec) extFiles(i, v int) map[string]string {
 	var toml strings.Builder
 	fmt.Fprintf(&toml, "name = '%s'\n", extAlias(i))
 	if j := p.extDep(i, v); j >= 0 {
-		fmt.Fprintf(&toml, "\n[requirements]\ndep = {path = '%s', version = '%s'}\n", extPath(j), extVersions[extDepVersion(i, v, j)])
+		fmt.Fprintf(&toml, "\n[requirements]\ndep = {path = '%s', version = '%s'}\n", extPath(j), extVersion(j, extDepVersion(i, v, j)))
 	}
 	out["dawn.toml"] = toml.String()
 	var sb strings.Builder
@@ -165,7 +191,7 @@ func (p *projSpec) extFiles(i, v int) map[string]string {
 	if e.Util {
 		parts = append(parts, fmt.Sprintf("EXT%d_U", i))
 	}
-	fmt.Fprintf(&sb, "def ext%d_f(n = 0):\n    return (%s,)\n\next_f = ext%d_f\n", i, strings.Join(parts, ", "), i)
+	fmt.Fprintf(&sb, "def ext%d_f(n = 0):\n    return (%s,)\n\next_f = ext%d_f\nEXT_K = EXT%d_K\n", i, strings.Join(parts, ", "), i, i)
 	out["lib.dawn"] = sb.String()
 	return out
 }
@@ -182,7 +208,7 @@ func (p *projSpec) rootToml() string {
 			sb.WriteString("[requirements]\n")
 			first = false
 		}
-		fmt.Fprintf(&sb, "%s = {path = '%s', version = '%s'}\n", extAlias(i), extPath(i), extVersions[e.Sel])
+		fmt.Fprintf(&sb, "%s = {path = '%s', version = '%s'}\n", extAlias(i), extPath(i), extVersion(i, e.Sel))
 	}
 	return sb.String()
 }
@@ -263,7 +289,7 @@ func (w *world) dial(address string) (vcs.Repository, error) {
 	}
 	p := w.exts()
 	for i := range p.Exts {
-		if extPath(i) == address {
+		if i != extTwin && extPath(i) == address {
 			w.ctx.St.Count("repository_dials", 1)
 			return &extRepo{w: w, i: i}, nil
 		}
@@ -288,6 +314,14 @@ func (r extRevision) History() iter.Seq[vcs.Revision] {
 func extRevID(i, v int) string { return fmt.Sprintf("%040x", 0x1000+i*16+v) }
 
 func (r *extRepo) Path() string { return extPath(r.i) }
+
+// served lists the projects this repository holds (project 0's also holds its v2).
+func (r *extRepo) served() []int {
+	if r.i == 0 && len(r.w.exts().Exts) > extTwin {
+		return []int{0, extTwin}
+	}
+	return []int{r.i}
+}
 func (r *extRepo) DefaultRef(ctx context.Context) (string, error) {
 	return "refs/heads/main", nil
 }
@@ -296,8 +330,10 @@ func (r *extRepo) Versions(ctx context.Context) ([]*vcs.Version, error) {
 		return nil, err
 	}
 	var out []*vcs.Version
-	for v, s := range extVersions {
-		out = append(out, &vcs.Version{Version: xmodule.Version{Path: extPath(r.i), Version: s}, ProjectPath: "", RevisionID: extRevID(r.i, v)})
+	for _, i := range r.served() {
+		for v := range extVersions {
+			out = append(out, &vcs.Version{Version: xmodule.Version{Path: extPath(i), Version: extVersion(i, v)}, ProjectPath: "", RevisionID: extRevID(i, v)})
+		}
 	}
 	return out, nil
 }
@@ -308,20 +344,23 @@ func (r *extRepo) GetRevision(ctx context.Context, id string) (vcs.Revision, err
 	if err := r.w.netFault("get-revision", id); err != nil {
 		return nil, err
 	}
-	for v := range extVersions {
-		if extRevID(r.i, v) == id {
-			return extRevision{id}, nil
+	for _, i := range r.served() {
+		for v := range extVersions {
+			if extRevID(i, v) == id {
+				return extRevision{id}, nil
+			}
 		}
 	}
 	return nil, fmt.Errorf("no such revision %s", id)
 }
 func (r *extRepo) FetchRevision(ctx context.Context, projectPath string, revision vcs.Revision, destDir string) error {
 	p := r.w.exts()
-	for v := range extVersions {
-		if extRevID(r.i, v) != revision.ID() {
+	for k := 0; k < len(r.served())*len(extVersions); k++ {
+		i, v := r.served()[k/len(extVersions)], k%len(extVersions)
+		if extRevID(i, v) != revision.ID() {
 			continue
 		}
-		files := p.extFiles(r.i, v)
+		files := p.extFiles(i, v)
 		names := make([]string, 0, len(files))
 		for n := range files {
 			names = append(names, n)
@@ -344,7 +383,7 @@ func (r *extRepo) FetchRevision(ctx context.Context, projectPath string, revisio
 
 // moduleCacheDir is where dawn keeps version v of required project i.
 func (w *world) moduleCacheDir(i, v int) string {
-	return filepath.Join(w.home, ".dawn", "modules", "cache", extPath(i)+"@"+extVersions[v])
+	return filepath.Join(w.home, ".dawn", "modules", "cache", extPath(extRepoOf(i))+"@"+extVersion(i, v))
 }
 
 // warmCache fills the module cache as an earlier dawn process would have left it.
